@@ -1,11 +1,11 @@
 (* Driver entry for C02: decodes one case, runs the model M (Model/C02.v) on the
    TOKENS and the specification S (Spec/C02.v) on the AST, encodes both answers.
-   case   = ( tokens env ast )
+   case   = ( tokens env ast cmp )
      tokens = list of (kindcode spelling)           as Lexer.tokenize leaves them
      env    = list of (name tokens)                 object-like macros: Macro.replacement
      ast    = 0 | (L body sfx) | (C spelling) | (I name) | (D name paren) | (P e)
               | (U op e) | (B op a b) | (T c a b)
-   answer = ( M S )   M = (Ok truth z unsigned) | (Err kind)
+   answer = ( M S T ) M = (Ok truth z unsigned) | (Err kind)     T = 1 | 0 | NA (see cmp below)
                       S = (Ok truth z unsigned) | UB | NoAst | BadAst
    Definitions only. *)
 From Coq Require Import ZArith Bool String Ascii List.
@@ -60,21 +60,36 @@ Definition enc_outcome (o : outcome) : data :=
   | OOutOfFuel => DList [DStr "Err"; DStr "OutOfFuel"]
   end.
 
+Definition tok_eqb (a b : token) : bool := kind_eqb (tkind a) (tkind b) && String.eqb (tspell a) (tspell b).
+Fixpoint toks_eqb (a b : list token) : bool :=
+  match a, b with
+  | [], [] => true
+  | x :: a', y :: b' => tok_eqb x y && toks_eqb a' b'
+  | _, _ => false
+  end.
+
+(* cmp = 1: also report whether the tokens the real Lexer produced from the rendered text are
+   exactly [tokens dt_source 0 e], the token sequence the theorems in Props/C02.v speak about *)
 Definition run_C02 (d : data) : data :=
   match d with
-  | DList [toks; env; ast] =>
+  | DList [toks; env; ast; cmp] =>
       match as_list_of dec_token toks, as_list_of dec_macro env with
       | Some ts, Some en =>
           let m := enc_outcome (evaluate_for_platform en ts) in
-          let s :=
+          let '(s, t) :=
             match ast with
-            | DInt _ => DStr "NoAst"
+            | DInt _ => (DStr "NoAst", DStr "NA")
             | _ => match dec_expr ast with
-                   | Some e => match sem (map fst en) e with Some v => enc_val v | None => DStr "UB" end
-                   | None => DStr "BadAst"
+                   | Some e =>
+                       (match sem (map fst en) e with Some v => enc_val v | None => DStr "UB" end,
+                        match cmp with
+                        | DInt 1 => of_bool (toks_eqb ts (tokens dt_source 0 e))
+                        | _ => DStr "NA"
+                        end)
+                   | None => (DStr "BadAst", DStr "NA")
                    end
             end in
-          DList [m; s]
+          DList [m; s; t]
       | _, _ => bad_case
       end
   | _ => bad_case
